@@ -151,6 +151,14 @@ def do_solve(st, op, radial_solver):
     if reply['restore_ulp'][worst] > 4.0:
         j = deviation_where(p[worst], before[worst])[1]
         reply['restore_example'] = [worst, j, repr(before[worst][j]), repr(p[worst][j])]
+        # for every array that moved: magnitude of the original value of its worst entry (to recognise entries that were
+        # injected at 1e-300 and merely lost precision in the subnormal range)
+        mags = {}
+        for name in ARRAYS:
+            if reply['restore_ulp'][name] > 4.0 and p[name].shape == before[name].shape:
+                jj = deviation_where(p[name], before[name])[1]
+                mags[name] = float(abs(before[name][jj]))
+        reply['restore_worst_magnitudes'] = mags
         # harness repair: give the caller its arrays back so that later operations of the run stay meaningful
         for name in ARRAYS:
             p[name][...] = before[name]
